@@ -616,6 +616,9 @@ func (g *G) CodecPolygonDesc() ShapeDesc {
 	if t.Chance(80) {
 		return g.edgeStartPolygon()
 	}
+	if t.Chance(60) {
+		return g.coarseCentrePolygon()
+	}
 	nshell := 1 + int(t.Uint(3))
 	if t.Chance(100) {
 		nshell = 4 + int(t.Uint(10)) // many small shells: exercises the cumulative edge table (>12 loops)
@@ -749,6 +752,42 @@ func (g *G) edgeStartPolygon() ShapeDesc {
 			if !l.IsNormalized() {
 				// keep vertex 0 first, reverse the rest
 				for a, b := 1, len(pts)-1; a < b; a, b = a+1, b-1 {
+					pts[a], pts[b] = pts[b], pts[a]
+				}
+			}
+			return ShapeDesc{Kind: KPolygon, Loops: [][]s2.Point{pts}, Depth: []int{0}}
+		}
+	}
+	return ShapeDesc{Kind: KPolygon, Loops: [][]s2.Point{g.starLoop(g.Point(), 4, 0.05, 0.1, false)}, Depth: []int{0}}
+}
+
+// coarseCentrePolygon draws a triangle or quadrilateral whose vertices are centres of level 0-3
+// cells (face centres, axis points), with zero components written as +0 the way a caller who types
+// the coordinates would have them.
+func (g *G) coarseCentrePolygon() ShapeDesc {
+	t := g.T
+	lvl := int(t.Uint(4))
+	n := 3 + int(t.Uint(2))
+	for try := 0; try < 8; try++ {
+		pts := make([]s2.Point, 0, n)
+		for draws := 0; len(pts) < n && draws < 40; draws++ {
+			c := s2.CellFromPoint(g.Point()).ID().Parent(lvl).Point()
+			if t.Chance(700) {
+				c = s2.Point{Vector: r3.Vector{X: c.X + 0, Y: c.Y + 0, Z: c.Z + 0}} // -0 becomes +0
+			}
+			dup := false
+			for _, q := range pts {
+				if q == c || (q.X == -c.X && q.Y == -c.Y && q.Z == -c.Z) {
+					dup = true
+				}
+			}
+			if !dup {
+				pts = append(pts, c)
+			}
+		}
+		if validLoop(pts) {
+			if l := s2.LoopFromPoints(clonePts(pts)); !l.IsNormalized() {
+				for a, b := 0, len(pts)-1; a < b; a, b = a+1, b-1 {
 					pts[a], pts[b] = pts[b], pts[a]
 				}
 			}
